@@ -8,6 +8,7 @@ import DhcpProofs.Props.C19
 import DhcpProofs.Lemmas.C03Relay
 import DhcpProofs.Lemmas.C03Observe6
 import DhcpProofs.Lemmas.C03Observe4
+import DhcpProofs.Lemmas.V6Access
 /-
   C03 — no input can crash decoding or any read-only use of a decoded message.
 
@@ -419,5 +420,56 @@ theorem C03_reencode6_counterexample : ¬ C03_reencode6_full := by
   intro h
   exact h (.msg 1 [] [.dhcpv4Msg (V4.Pkt4.mk 1 1 [] 0 [0, 0, 0, 0] 0 0 (some [1, 2, 3, 4, 5]) none none none [] []
     V4.Opts.empty)]) (by decide)
+
+/-! ### Every typed accessor of the DHCPv6 option sets (Dhcp/V6/Access.lean)
+
+All 39 accessor methods of `MessageOptions`, `RelayOptions`, `IdentityOptions`,
+`AddressOptions`, `PDOptions`, `PrefixOptions` and `FourRDOptions`, on the
+message's own option set and on every option set nested in it, at any depth. -/
+
+/-- On a decoded message no accessor panics, whatever option set of the message it is
+called on (`path`: indices of the options gone through). -/
+theorem C03_v6_accessors_decoded (b : Bytes) (m : V6.Msg6) (h : V6.dec6 b = .ok m)
+    (path : List Nat) (a : V6.Acc) : V6.accessAt m path a ≠ some .panic := by
+  unfold V6.accessAt
+  cases hs : V6.setAt m.rootSet path with
+  | none => simp
+  | some s =>
+    obtain ⟨k, os⟩ := s
+    have hd : V6.DecOpts os :=
+      V6.DecOpts.setAt path (k := m.rootSet.1) (os := m.rootSet.2) (V6.decMsg_of_dec6 h).rootSet hs
+    by_cases hk : k = a.kind
+    · simp only [hk, if_true, ne_eq, Option.some.injEq]
+      exact hd.runAcc a
+    · simp [hk]
+
+/-- The accessors whose Go type assertion is checked (`v, ok := opt.(*T)`) never
+panic, on ANY option list, decoded or hand-built. -/
+theorem C03_v6_checked_accessors_total (a : V6.Acc) (os : List V6.Opt6)
+    (ha : a ∉ [V6.Acc.archTypes, .clientID, .serverID, .iana, .oneIANA, .iata, .oneIATA, .iapd, .oneIAPD,
+      .addresses, .oneAddress]) : V6.runAcc a os ≠ .panic := by
+  cases a <;> simp only [V6.runAcc] <;> first
+    | (intro hc; cases hc)
+    | (exfalso; simp at ha)
+
+/-- The full statement (every value, decoded or not) is FALSE of model and code: the
+eleven accessors with an unchecked assertion panic on a hand-built option list in
+which an `OptionGeneric` carries their code. -/
+def C03_v6_accessors_full : Prop := ∀ (a : V6.Acc) (os : List V6.Opt6), V6.runAcc a os ≠ .panic
+
+theorem C03_v6_accessors_counterexample : ¬ C03_v6_accessors_full := by
+  intro h
+  exact h .archTypes [.generic 61 [0, 7]] rfl
+
+example : V6.runAcc .addresses [.generic 5 []] = .panic := rfl
+example : V6.runAcc .oneIANA [.generic 3 []] = .panic := rfl
+/-- non-vacuity: a decoded message with a nested option set, and accessors finding things in it -/
+example : ∃ m, V6.dec6 [1, 0xaa, 0xbb, 0xcc, 0, 3, 0, 40, 1, 2, 3, 4, 0, 0, 0, 10, 0, 0, 0, 20,
+      0, 5, 0, 24, 0x20, 1, 0xd, 0xb8, 0, 0, 0, 0, 0, 0, 0, 0, 0, 0, 0, 1, 0, 0, 0, 30, 0, 0, 0, 40] = .ok m ∧
+    (∃ o, V6.accessAt m [] .oneIANA = some (.ok (.opt o))) ∧
+    (∃ os, V6.accessAt m [0] .addresses = some (.ok (.opts os)) ∧ os.length = 1) ∧
+    V6.accessAt m [0, 0] .addrStatus = some (.ok .nil) ∧
+    V6.accessAt m [0] .prefixes = none := by
+  refine ⟨_, rfl, ⟨_, rfl⟩, ⟨_, rfl, rfl⟩, rfl, rfl⟩
 
 end Dhcp.Props
